@@ -67,6 +67,8 @@ func registerSortNatives(e *Engine, n map[string]nativeFn) {
 			oldIn := vc.fresh("inner$presort", srt.V)
 			vc.assumeGlobal(mkEq(oldIn, mkSelect(arr, sl.Base)))
 			newIn := vc.fresh("inner$sorted", srt.V)
+			// an empty window: nothing at all moves (stated as an equality so that no extensionality is needed)
+			vc.assume(st, mkImplies(mkCmp("<=", sl.Len, mkInt(0)), mkEq(newIn, oldIn)))
 			// outside the sorted window nothing moves
 			vc.assume(st, mkForall([]*Term{k}, mkImplies(mkNot(inRange(k)), mkEq(mkSelect(newIn, k), mkSelect(oldIn, k))), []*Term{mkSelect(newIn, k)}))
 			vc.assume(st, mkForall([]*Term{k}, mkImplies(inRange(k), mkEq(mkSelect(newIn, pk), mkSelect(oldIn, k))), []*Term{mkSelect(oldIn, k)}))
